@@ -40,6 +40,17 @@ func genSegments(r *h.Rand, d delims) ([]seg, string, string) {
 	for attempt := 0; attempt < 50; attempt++ {
 		var segs []seg
 		n := 1 + r.Intn(7)
+		if r.Chance(20) {
+			// the source opens with blank text cut into several runs by comments (no extends / import follows):
+			// every run is text like any other
+			for k := 0; k < 2+r.Intn(2); k++ {
+				segs = append(segs, seg{kind: "text", text: r.Pick([]string{"\n", " ", "\n\n", "\t\n", "  "})})
+				segs = append(segs, seg{kind: "comment", src: d.lcomment() + r.Pick([]string{"c", " header ", ""}) + d.rcomment()})
+			}
+			if r.Chance(60) {
+				segs = append(segs, seg{kind: "text", text: r.Pick([]string{"\n", " ", "\r\n"})})
+			}
+		}
 		for i := 0; i < n; i++ {
 			switch pickW(r, "text", 5, "action", 4, "comment", 2) {
 			case "text":
